@@ -475,17 +475,21 @@ def check_box(P, ctx):
     g = P.cfg(fn)
     ctx.fn(fn)
     dels = [n for (n, c) in g.nodes_calling('del')]
-    clears = [n for (n, c) in g.nodes_calling('Box_Ref') if ir.is_null(c[2][1])]
+    NI = util.Norm(P, fn, inline=True)
+    field = ('arrow', ('param', 0), 'val')
+    clears = [n for (n, c) in g.nodes_calling('Box_Ref') if ir.is_null(c[2][1]) and NI.canon(c[2][0]) == ('param', 0)]
+    clears += [n for n in g.live() if n['kind'] == 'stmt' and n['expr'] is not None and NI.canon(n['expr'])[0] == 'assign' and NI.canon(n['expr'])[2] == field and ir.is_null(NI.canon(n['expr'])[3])]
     ok = len(dels) == 1 and len(clears) >= 1
     if ok:
         c = [c for c in ir.calls(dels[0]['expr']) if ir.callee_name(c) == 'del'][0]
         v = ir.canon(c[2][0])
         # v is the dereferenced pointee, deleted only when non-null, never twice on a path, pointer cleared afterwards
         d = [n for n in g.live() if n.get('decl') and ('local', n['decl']['name']) == v]
-        ok = len(d) == 1 and any(ir.callee_name(x) == 'Box_Deref' for x in ir.calls(d[0]['decl']['init']))
-        conds = [n for n in g.live() if n['kind'] == 'cond' and ir.canon(n['expr']) == v]
+        ok = len(d) == 1 and NI.canon(d[0]['decl']['init']) == field
+        conds = [n for n in g.live() if n['kind'] == 'cond' and ir.canon(n['expr']) in (v, ir.canon(('bin', '!=', v, ('int', 0))))]
         ok = ok and len(conds) == 1 and g.must_pass(dels[0]['id'], through_edges=[(conds[0]['id'], True)])
-        ok = ok and dels[0]['id'] not in g.reach_from(dels[0]['succ'][0][0]) and g.must_pass(g.exit, [n['id'] for n in clears])
+        ok = ok and dels[0]['id'] not in g.reach_from(dels[0]['succ'][0][0]) and g.must_pass(g.exit, [n['id'] for n in clears]) and \
+            all(cl['id'] not in g.reach_from(g.entry, cut_nodes=[d[0]['id']]) for cl in clears)
     ctx.check(ok, rule, 'Box_Del', site(fn), 'a Box deletes its pointee at most once, only when it holds one, and clears the pointer on every path')
     # Box_Ref / Box_Deref are plain accessors of the same field
     fr, fd = P.fn('Box_Ref'), P.fn('Box_Deref')
